@@ -497,13 +497,15 @@ fn gen_app_rebuild(seed: u64, tier: Tier) -> Case {
     let mut r = Rng::new(seed ^ fnv64("C15-app-rebuild"));
     // (another world whose edge and vertex files carry the same names: file names depend on the compression flags,
     // and plugin configurations hold them, so a world that matches is drawn rather than patched)
-    let mut w2 = gen_app(r.next_u64() >> 12, "app-legal", tier).world;
+    let mut c2 = gen_app(r.next_u64() >> 12, "app-legal", tier);
     for _ in 0..40 {
-        if w2.edges_path() == c.world.edges_path() && w2.vertices_path() == c.world.vertices_path() {
+        if c2.world.edges_path() == c.world.edges_path() && c2.world.vertices_path() == c.world.vertices_path() {
             break;
         }
-        w2 = gen_app(r.next_u64() >> 12, "app-legal", tier).world;
+        c2 = gen_app(r.next_u64() >> 12, "app-legal", tier);
     }
+    let mut w2 = c2.world.clone();
+    let batch2 = c2.batches.get(0).cloned().unwrap_or_default();
     if r.chance(0.7) {
         // counts scanned from the files in both configurations (nothing in the configuration tells the networks apart)
         c.world.explicit_counts = false;
@@ -518,7 +520,7 @@ fn gen_app_rebuild(seed: u64, tier: Tier) -> Case {
     c.simcfg.faults = sim::F_SHORT_READ;
     c.simcfg.io_fault_rate = *r.pick(&[0.0, 0.1, 0.5]);
     c.simcfg.max_steps = 3_000_000;
-    c.params = json!({"world2": w2, "mtime_variant": r.below(3)});
+    c.params = json!({"world2": w2, "batch2": batch2, "mtime_variant": r.below(3)});
     c
 }
 
@@ -552,9 +554,21 @@ fn run_app_rebuild(case: &Case, fatal_fd: i32) -> ChildResult {
         });
         let cfg2 = w2.config(true);
         let pool = crate::harness::make_pool(2);
+        let batch2: Vec<Value> = case.params["batch2"].as_array().cloned().unwrap_or_default();
         let build2 = || -> Value {
             match std::panic::catch_unwind(std::panic::AssertUnwindSafe(|| build_app(&cfg2))) {
-                Ok(Ok(app)) => json!(graph_api_diffs(&w2, &Bind { app })),
+                Ok(Ok(app)) => {
+                    // the per-edge / per-vertex tables of the new application belong to the new network too: its answers
+                    // to a batch are checked for row alignment against the generator's lists (geometries, vertex
+                    // identifiers, road classes)
+                    let mut d: Vec<String> = match std::panic::catch_unwind(std::panic::AssertUnwindSafe(|| app.run(batch2.clone(), None))) {
+                        Ok(Ok(rs)) => alignment_diffs(&w2, &rs.iter().map(by_feature_name).collect::<Vec<_>>()).into_iter().map(|(c, x)| format!("{}: {}", c, x)).collect(),
+                        Ok(Err(e)) => vec![format!("run() failed: {}", e)],
+                        Err(_) => vec!["run() panicked".to_string()],
+                    };
+                    d.extend(graph_api_diffs(&w2, &Bind { app }));
+                    json!(d)
+                }
                 Ok(Err(e)) => json!({"build_error": e}),
                 Err(_) => json!({"build_panic": true}),
             }
